@@ -12,6 +12,18 @@ See the included GPLv3 LICENSE file
 
 using namespace nifly;
 
+#ifdef NIFLY_VERIF
+nifly::verif::Hooks* nifly::verif::g_hooks = nullptr;
+
+__attribute__((noinline)) void nifly::verif::Announce(int kind, size_t width) {
+	if (width != 0 && g_hooks && g_hooks->announce) {
+		auto a = reinterpret_cast<uintptr_t>(__builtin_return_address(0));
+		auto b = reinterpret_cast<uintptr_t>(__builtin_return_address(1));
+		g_hooks->announce(g_hooks->ctx, kind, width, reinterpret_cast<const void*>(a * 1000003u ^ b));
+	}
+}
+#endif
+
 static const std::string NIF_GAMEBRYO = "Gamebryo File Format";
 static const std::string NIF_NETIMMERSE = "NetImmerse File Format";
 static const std::string NIF_NDS = "NDSNIF....@....@....";
@@ -58,7 +70,13 @@ void NiString::Read(NiIStream& stream, const int szSize) {
 
 	if (szSize == 1) {
 		uint8_t smSize = 0;
+#ifdef NIFLY_VERIF
+		NIFLY_VERIF_ANNOUNCE(verif::K_STRLEN, 1);
+#endif
 		stream >> smSize;
+#ifdef NIFLY_VERIF
+		NIFLY_VERIF_ANNOUNCE(verif::K_STRDATA, smSize);
+#endif
 
 		buf = std::make_unique<char[]>(smSize + 1);
 		stream.read(buf.get(), smSize);
@@ -66,7 +84,13 @@ void NiString::Read(NiIStream& stream, const int szSize) {
 	}
 	else if (szSize == 2) {
 		uint16_t medSize = 0;
+#ifdef NIFLY_VERIF
+		NIFLY_VERIF_ANNOUNCE(verif::K_STRLEN, 2);
+#endif
 		stream >> medSize;
+#ifdef NIFLY_VERIF
+		NIFLY_VERIF_ANNOUNCE(verif::K_STRDATA, medSize);
+#endif
 
 		buf = std::make_unique<char[]>(medSize + 1);
 		stream.read(buf.get(), medSize);
@@ -74,7 +98,13 @@ void NiString::Read(NiIStream& stream, const int szSize) {
 	}
 	else if (szSize == 4) {
 		uint32_t bigSize = 0;
+#ifdef NIFLY_VERIF
+		NIFLY_VERIF_ANNOUNCE(verif::K_STRLEN, 4);
+#endif
 		stream >> bigSize;
+#ifdef NIFLY_VERIF
+		NIFLY_VERIF_ANNOUNCE(verif::K_STRDATA, bigSize);
+#endif
 
 		buf = std::make_unique<char[]>(bigSize + 1);
 		stream.read(buf.get(), bigSize);
@@ -122,11 +152,22 @@ void NiString::Write(NiOStream& stream, const int szSize) {
 
 
 void NiStringRef::Read(NiIStream& stream) {
+#ifdef NIFLY_VERIF
+	if (verif::g_hooks && verif::g_hooks->on_strref)
+		verif::g_hooks->on_strref(verif::g_hooks->ctx, this, false);
+#endif
 	if (stream.GetVersion().File() < V20_1_0_3) {
 		std::array<char, 2048 + 1> buf{};
 
 		uint32_t sz = 0;
+#ifdef NIFLY_VERIF
+		NIFLY_VERIF_ANNOUNCE(verif::K_STRLEN, 4);
+#endif
 		stream >> sz;
+#ifdef NIFLY_VERIF
+		if (sz < buf.size())
+			NIFLY_VERIF_ANNOUNCE(verif::K_STRDATA, sz);
+#endif
 
 		if (sz < buf.size())
 			stream.read(buf.data(), sz);
@@ -136,20 +177,44 @@ void NiStringRef::Read(NiIStream& stream) {
 		buf[sz] = 0;
 		str = buf.data();
 	}
+#ifdef NIFLY_VERIF
+	else {
+		NIFLY_VERIF_ANNOUNCE(verif::K_STRIDX, 4);
+		stream >> index;
+	}
+#else
 	else
 		stream >> index;
+#endif
 }
 
 void NiStringRef::Write(NiOStream& stream) {
+#ifdef NIFLY_VERIF
+	if (verif::g_hooks && verif::g_hooks->on_strref)
+		verif::g_hooks->on_strref(verif::g_hooks->ctx, this, true);
+#endif
 	if (stream.GetVersion().File() < V20_1_0_3) {
 		auto sz = uint32_t(str.length());
 		str.resize(sz);
 
+#ifdef NIFLY_VERIF
+		NIFLY_VERIF_ANNOUNCE(verif::K_STRLEN, 4);
+#endif
 		stream << sz;
+#ifdef NIFLY_VERIF
+		NIFLY_VERIF_ANNOUNCE(verif::K_STRDATA, str.length());
+#endif
 		stream.write(str.c_str(), str.length());
 	}
+#ifdef NIFLY_VERIF
+	else {
+		NIFLY_VERIF_ANNOUNCE(verif::K_STRIDX, 4);
+		stream << index;
+	}
+#else
 	else
 		stream << index;
+#endif
 }
 
 
